@@ -186,10 +186,19 @@ static void c13_schedules(int shard, long long seed, long long nsteps) {
         // the sentinel arrives by setNow(), or - on a clock with a distinct backup - by setup() from a backup clock that
         // has nothing to report (an RTC that does not answer): ignored either way, the clock keeps running
         bool viaSetup = (cfg == 1 && rng.below(2) == 0);
+        // ... or by forceSync() from a reference clock that has nothing to report (an NTP request that timed out)
+        bool viaForce = (!viaSetup && (cfg == 3 || cfg == 4) && rng.below(2) == 0);
         if (viaSetup) { acetime_t keep = backup.getNow(); backup.setNow(kInv); c.setup(); backup.setNow(keep); CNT.add("c13.invalid_sets_through_setup"); }
+        else if (viaForce) {
+          acetime_t keep = cfg == 4 ? ro.value : reference.getNow();
+          if (cfg == 4) ro.value = kInv; else reference.setNow(kInv);
+          c.forceSync();
+          if (cfg == 4) ro.value = keep; else reference.setNow(keep);
+          CNT.add("c13.invalid_sets_through_forceSync");
+        }
         else c.setNow(kInv);
         CNT.add("c13.sched_invalid_sets");
-        snprintf(tb, sizeof tb, "+%u %s(INVALID);", gap, viaSetup ? "setup" : "set"); if (trace.size() < 1500) trace += tb;
+        snprintf(tb, sizeof tb, "+%u %s(INVALID);", gap, viaSetup ? "setup" : (viaForce ? "forceSync" : "set")); if (trace.size() < 1500) trace += tb;
         if (c.getLastSyncTime() != before_sync || c.isInit() != S.init) { J j; j.str("trace", trace); witness("c13:invalid-set-not-ignored", "setNow(kInvalidSeconds) changed the clock state", j); }
       }
     }
